@@ -53,9 +53,10 @@ func mutationMustReject(s *Sys, m Mut, from, idx, to int) bool {
 // C02: only authentic, unmodified data messages are delivered
 func genC02(c *Ctx) {
 	c.Rep.Rule = "sessions at 0..6 rotations; for an in-flight data message every mutation class (MAC, ciphertext, counter, key ids, flag, next key, truncation, tags, version, re-MAC with a disclosed key) is delivered before the genuine message; each step compared with the abstract machine; oracle: a mutated message yields no plaintext and no TLV effect, the genuine one is still delivered; plaintext injected while encrypted carries the unencrypted event"
-	n := 6
+	c02PlainInjection(c)
+	n := 16
 	if c.Thorough() {
-		n = 120
+		n = 160
 	}
 	for i := 0; i < n; i++ {
 		pol := c.pickVersionPolicy()
@@ -73,8 +74,13 @@ func genC02(c *Ctx) {
 			s.ps[a].pending = idx + 1
 			muts := dataMutations(c, s, a)
 			delivered := false
-			for k := 0; k < 3; k++ {
-				m := muts[c.R.Intn(len(muts))]
+			// every mutation class on the first message of a session, a sample on the others
+			order := c.R.Intn(len(muts))
+			for k := 0; k < len(muts); k++ {
+				if round > 0 && k >= 3 {
+					break
+				}
+				m := muts[(order+k)%len(muts)]
 				must := mutationMustReject(s, m, a, idx, b)
 				before := len(s.ps[b].events)
 				_ = before
@@ -116,6 +122,70 @@ func genC02(c *Ctx) {
 		c.AddScenario(s, pols)
 		if i == 0 {
 			c.Sample(s.trace[len(s.trace)-min2(10, len(s.trace)):])
+		}
+	}
+}
+
+// plaintext that arrives while a session exists is never passed off as authenticated: however the session was
+// opened (query, whitespace tag, error message, refresh), for either party, for the first and for later lines
+func c02PlainInjection(c *Ctx) {
+	type mode struct {
+		name string
+		pols []int
+		open func(s *Sys) bool
+	}
+	enc := func(s *Sys) bool { return s.ps[1].c.IsEncrypted() && s.ps[2].c.IsEncrypted() }
+	modes := []mode{
+		{"query", []int{polV3, polV3}, func(s *Sys) bool { return s.Handshake(1, 2) }},
+		{"query-v2", []int{polV2, polV2}, func(s *Sys) bool { return s.Handshake(2, 1) }},
+		{"whitespace", []int{polV3 | polSendWS, polV3 | polWSStart}, func(s *Sys) bool {
+			s.Send(1, []byte("tagged line"))
+			s.Pump(1, 2, 20)
+			return enc(s)
+		}},
+		{"whitespace-v2", []int{polV2 | polV3 | polSendWS, polV2 | polWSStart}, func(s *Sys) bool {
+			s.Send(1, []byte("tagged line"))
+			s.Pump(1, 2, 20)
+			return enc(s)
+		}},
+		{"error-start", []int{polV3, polV3 | polErrStart}, func(s *Sys) bool {
+			s.Inject(2, []byte("?OTR Error: oops"), fmt.Sprintf("WError %s", coqBytes([]byte("oops"))))
+			s.Pump(1, 2, 20)
+			return enc(s)
+		}},
+		{"refresh", []int{polV2 | polV3, polV2 | polV3}, func(s *Sys) bool {
+			if !s.Handshake(1, 2) {
+				return false
+			}
+			s.tick(130)
+			return s.Handshake(2, 1)
+		}},
+		{"require", []int{polV3 | polRequire, polV3 | polRequire}, func(s *Sys) bool { return s.Handshake(1, 2) }},
+	}
+	for _, m := range modes {
+		for _, first := range []int{1, 2} {
+			s := newSys(m.pols, c.R.U64())
+			if !m.open(s) {
+				c.Violate("handshake-failed", m.name, "the session could not be opened", s.trace)
+				continue
+			}
+			c.Count("plain-injection:" + m.name)
+			for k, to := range []int{first, first, 3 - first} {
+				line := []byte(fmt.Sprintf("injected line %d", k))
+				p := s.Inject(to, line, fmt.Sprintf("WPlain %s None", coqBytes(line)))
+				flagged := false
+				for _, e := range s.ps[to].events {
+					if e == 13 {
+						flagged = true
+					}
+				}
+				if p != nil && !flagged {
+					c.Violate("unflagged-plaintext", "session-opened-by="+m.name, fmt.Sprintf("line %d injected into the encrypted conversation of party %d was returned without the received-unencrypted event", k, to), s.trace)
+				}
+			}
+			s.Send(1, []byte("still works"))
+			s.Pump(1, 2, 10)
+			c.AddScenario(s, m.pols)
 		}
 	}
 }
